@@ -161,7 +161,9 @@ pub fn call(req: &Value, timeout_s: u64) -> Reply {
             };
         }
         let r = w.as_mut().unwrap().call(req, Duration::from_secs(timeout_s));
-        if !matches!(r, Reply::Ok(_)) {
+        // a worker that announced its exit must not receive the next request
+        let leaving = matches!(&r, Reply::Ok(v) if v.get("_exit").is_some());
+        if !matches!(r, Reply::Ok(_)) || leaving {
             *w = None;
         }
         r
@@ -229,5 +231,9 @@ pub fn serve(mut handler: impl FnMut(&Value, &mut ServerIo) -> Value) {
         };
         let resp = handler(&req, &mut io);
         io.send(&resp);
+        // a handler that left a thread behind (hang detection) asks for a fresh process
+        if resp.get("_exit").is_some() {
+            std::process::exit(0);
+        }
     }
 }
